@@ -273,10 +273,17 @@ def run_bounded_script(script, args, repo=None, timeout=3600, env=None):
     if env:
         e.update(env)
     cmd = [VENV_PY, '-W', 'ignore', os.path.join(VERIF, 'bounded', script)] + [str(a) for a in args]
+    # the harness's scratch files live in a directory of this call, removed whatever happens to the harness (a harness
+    # killed at its time limit used to leave its files - up to 3 GB of perturbed listings - behind)
+    import tempfile, shutil
+    scratch = tempfile.mkdtemp(prefix='pytough-h-', dir='/var/tmp')
+    e['PYTOUGH_SCRATCH'] = scratch
     try:
         p = subprocess.run(cmd, capture_output=True, text=True, timeout=timeout, env=e, cwd='/var/tmp')
     except subprocess.TimeoutExpired as ex:
         return {'error': 'timeout after %ss' % timeout, 'timeout': True}
+    finally:
+        shutil.rmtree(scratch, ignore_errors=True)
     i = p.stdout.rfind('@@JSON@@')
     if i < 0:
         return {'error': 'no result', 'stdout': p.stdout[-1500:], 'stderr': p.stderr[-3000:], 'rc': p.returncode}
